@@ -1,1 +1,3 @@
 pub mod c01;
+pub mod c06;
+pub mod common;
